@@ -164,8 +164,11 @@ func compiledGen(seed int64, n int, opts map[string]string) []J {
 					vals := []string{"a", "f(b)", "[x,y]", "\"cd\"", "g(Z1, Z2)", "7"}
 					pre = fmt.Sprintf("V%d = %s, ", k, vals[r.Intn(len(vals))])
 				}
-				if r.Intn(4) == 0 {
-					pre += "append([a], T7, L7), atom_chars(abc, C7), "
+				if r.Intn(3) == 0 {
+					// arguments built at run time: the prefix of the partial list that append/3 makes is a slice-backed list, a list
+					// of characters, or a chain of './2 cells
+					pre += []string{"append([a], T7, L7), atom_chars(abc, C7), ", "atom_chars(ab, C7), append(C7, T7, L7), ",
+						"C7 = '.'(a, '.'(b, [])), append(C7, T7, L7), ", "atom_codes(ab, C7), append(C7, [c|T7], L7), "}[r.Intn(4)]
 					clause2 := strings.Replace(clause, name+"(", name+"_r(L7, C7, ", 1)
 					if clause2 != clause {
 						clause = clause2
